@@ -135,6 +135,38 @@ Theorem C09_unitary_with_library_K_rel_2 :
   unitary2 T /\ M2tr T = T /\ M2tr Th = Th.
 Proof. exact rel_unitary_library_2. Qed.
 
+(* ---- 3b. RelativisticKMatrix.formulate forwards the caller's phsp_factor, angular_momentum and
+        meson_radius: in the results built with marker arguments (rhoX, Lx, dx; both flags, n = 1, 2,
+        symbolic n_poles) every EnergyDependentWidth carries rhoX, Lx, dx, every phase-space node is
+        rhoX(s, ., .), and the default PhaseSpaceFactor occurs nowhere ---- *)
+Theorem C09_formulate_only_callers_arguments :
+  forallb marked_ok gen_marked_rel = true /\
+  map fst gen_marked_rel
+  = ["return_t_hat=False/n=1"; "return_t_hat=False/n=2"; "return_t_hat=True/n=1"; "return_t_hat=True/n=2"]%string.
+Proof. exact formulate_only_callers_arguments. Qed.
+
+(* ---- 3c. LIMIT OF THE UNITARITY THEOREMS.  They assume K real symmetric, which for the
+        relativistic parametrisation rests on width_real_nonneg: every EnergyDependentWidth real and
+        >= 0.  That hypothesis FAILS for a pole below a channel's threshold with PhaseSpaceFactor (the
+        default) and PhaseSpaceFactorComplex: the width is normalised with rho(m_R^2), which is purely
+        imaginary there.  On the regenerated width tree: if rho is real at s and purely imaginary at
+        m0^2, the width is a non-zero purely imaginary number.  Then K is complex and S is not unitary
+        although all parameters are real and s is above all thresholds (known finding
+        kmatrix_subthreshold_pole_not_unitary, reproduced by bridge/search_C09.py on every run;
+        PhaseSpaceFactorAbs with L = 0 stays unitary). ---- *)
+Theorem C09_width_not_real_below_threshold_refuted :
+  forall f s m0 g0 ma mb L d a b p q,
+  g0 <> 0%R -> a <> 0%R -> b <> 0%R -> p <> 0%R -> q <> 0%R ->
+  f "rhoX"%string [RtoC s; RtoC ma; RtoC mb] = RtoC a ->
+  f "rhoX"%string [RtoC m0 * RtoC m0; RtoC ma; RtoC mb] = Ci * RtoC b ->
+  f "FormFactor"%string [RtoC s; RtoC ma; RtoC mb; RtoC L; RtoC d] = RtoC p ->
+  f "FormFactor"%string [RtoC m0 * RtoC m0; RtoC ma; RtoC mb; RtoC L; RtoC d] = RtoC q ->
+  wdC (env_edw f s m0 g0 ma mb L d) gen_edw /\
+  exists y : R, y <> 0%R /\ denC (env_edw f s m0 g0 ma mb L d) gen_edw = Ci * RtoC y.
+Proof. exact width_imaginary_below_threshold. Qed.
+Theorem C09_imaginary_is_not_real : forall y, y <> 0%R -> ~ isreal (Ci * RtoC y).
+Proof. exact imaginary_not_real. Qed.
+
 (* ---- 4. the hypotheses are satisfiable: a concrete 2-channel point K = [[1,2],[2,3]],
         rho = (1, 4), and a concrete 2-pole parameter set ---- *)
 Example C09_example_point :
@@ -163,6 +195,9 @@ Print Assumptions C09_Trel_unitary_symmetric_2.
 Print Assumptions C09_K_param_real_symmetric_nr.
 Print Assumptions C09_K_param_real_symmetric_rel.
 Print Assumptions C09_K_param_entries_covered.
+Print Assumptions C09_formulate_only_callers_arguments.
+Print Assumptions C09_width_not_real_below_threshold_refuted.
+Print Assumptions C09_imaginary_is_not_real.
 Print Assumptions C09_unitary_with_library_K_nr_2.
 Print Assumptions C09_unitary_with_library_K_rel_2.
 Print Assumptions C09_example_point.
